@@ -245,13 +245,17 @@ def run_store_session(seed, kind, profname):
     try:
         ics = davgen.ics_pool(rng, prof.get("uidheavy", False))
         vcf = davgen.vcf_pool()
-        for _ in range(prof["len"] + 6):
+        small = rng.random() < 0.7     # small name pool: same paths are hit again and again
+        icsn = davgen.ICS_NAMES[:2] if small else davgen.ICS_NAMES
+        vcfn = davgen.VCF_NAMES[:1] if small else davgen.VCF_NAMES
+        for _ in range(prof["len"] + 16):
             r = rng.random()
             live = sorted(s.events[-1]["audit"]["colls"]["s"]["members"]) if s.events else []
-            spec = rng.choice(["cur", "stale", "other", "garbage"]) if rng.random() < prof["cond"] else None
+            spec = rng.choice(["cur", "cur", "cur", "stale", "stale", "other", "garbage"]) \
+                if rng.random() < min(prof["cond"], 0.55) else None
             if r < 0.62:
                 usevcf = rng.random() < 0.3
-                n = rng.choice(davgen.VCF_NAMES if usevcf else davgen.ICS_NAMES)
+                n = rng.choice(vcfn if usevcf else icsn)
                 if rng.random() < prof["invalid"]:
                     data, valid = rng.choice(davgen.INVALID_VCF if usevcf else davgen.INVALID_ICS), False
                 else:
@@ -259,7 +263,7 @@ def run_store_session(seed, kind, profname):
                 s.put(n, data, etag_spec=spec, valid=valid)
             elif r < 0.82:
                 n = rng.choice(live) if live and rng.random() < 0.75 else \
-                    rng.choice(davgen.ICS_NAMES + davgen.VCF_NAMES)
+                    rng.choice(icsn + vcfn)
                 s.delete(n, etag_spec=spec)
             elif r < 0.9:
                 s.restart()
